@@ -160,6 +160,13 @@ class WalletWorld:
             wi = WInfo('w%d_%s' % (i, kind), kind, wt, self.network, db, cache)
             self.create_wallet(wi, i)
             self.wallets.append(wi)
+        if self.focus == 'C08' and ch.coin('second_account', 0.3):
+            # HD wallets get a second account: every ledger clause then has to hold per account
+            for wi in self.wallets:
+                if wi.kind == 'hd':
+                    h = self.H(wi)
+                    acc = h.new_account()
+                    wi.account_ids.append(acc.account_id)
         # an external recipient (never a wallet key)
         for j in range(3):
             priv = int.from_bytes(rhashes.sha256(b'external %d' % j), 'big') % (rec.N - 1) + 1
@@ -300,19 +307,26 @@ class WalletWorld:
         h = self.H(wi)
         return h.addresslist(depth=-1) if wi.kind == 'single' else h.addresslist()
 
+    def acct(self, wi):
+        """{} for single-account wallets (calls keep their default form), else {'account_id': a} for a drawn account."""
+        if len(wi.account_ids) < 2:
+            return {}
+        return {'account_id': wi.account_ids[self.ch.index('acct', len(wi.account_ids))]}
+
     def pick_wallet(self):
         return self.wallets[self.ch.index('wallet', len(self.wallets))]
 
     # -- operations -------------------------------------------------------------------------------------------
     def op_new_key(self, wi):
         how = self.ch.pick('keyop', ['new_key', 'get_key', 'new_key_change', 'get_keys', 'get_key_change'])
-        self.w.op(how, wallet=wi.name)
+        acc = self.acct(wi)
+        self.w.op(how, wallet=wi.name, **acc)
         h = self.H(wi)
         if how == 'get_keys':
             n = self.ch.int('nkeys', 1, 4)
-            ok, r = self.call(wi, how, lambda: h.get_keys(number_of_keys=n))
+            ok, r = self.call(wi, how, lambda: h.get_keys(number_of_keys=n, **acc))
         else:
-            ok, r = self.call(wi, how, lambda: getattr(h, how)())
+            ok, r = self.call(wi, how, lambda: getattr(h, how)(**acc))
         if ok:
             ks = r if isinstance(r, list) else [r]
             self.w.outcome('keys', paths=[k.path for k in ks], addrs=[k.address for k in ks])
@@ -366,17 +380,18 @@ class WalletWorld:
         ch = self.ch
         how = ch.weighted('upd', [('utxos_update', 4), ('transactions_update', 3), ('scan', 2), ('utxos_update_norescan', 2),
                                   ('transactions_update_by_txids', 1)])
-        self.w.op(how, wallet=wi.name)
+        acc = self.acct(wi)
+        self.w.op(how, wallet=wi.name, **acc)
         h = self.H(wi)
         if how == 'utxos_update':
-            ok, r = self.call(wi, how, lambda: h.utxos_update())
+            ok, r = self.call(wi, how, lambda: h.utxos_update(**acc))
         elif how == 'utxos_update_norescan':
-            ok, r = self.call(wi, how, lambda: h.utxos_update(rescan_all=False))
+            ok, r = self.call(wi, how, lambda: h.utxos_update(rescan_all=False, **acc))
         elif how == 'transactions_update':
-            ok, r = self.call(wi, how, lambda: h.transactions_update())
+            ok, r = self.call(wi, how, lambda: h.transactions_update(**acc))
         elif how == 'scan':
             gap = ch.pick('gap', [2, 3, 5])
-            ok, r = self.call(wi, how, lambda: h.scan(scan_gap_limit=gap))
+            ok, r = self.call(wi, how, lambda: h.scan(scan_gap_limit=gap, **acc))
         else:
             ids = sorted(wi.seen_txids | set(wi.sent))
             if not ids:
@@ -418,18 +433,19 @@ class WalletWorld:
                 return addrs[ch.index('rcpt_i', len(addrs))]
         return self.ext_keys[ch.index('rcpt_e', len(self.ext_keys))]
 
-    def spendable(self, wi, min_conf=0):
+    def spendable(self, wi, min_conf=0, acc=None):
         h = self.H(wi)
-        ok, u = self.call(wi, 'utxos', lambda: h.utxos(min_confirms=min_conf))
+        ok, u = self.call(wi, 'utxos', lambda: h.utxos(min_confirms=min_conf, **(acc or {})))
         return u if ok else []
 
     def op_send(self, wi):
         ch = self.ch
         h = self.H(wi)
         min_conf = ch.pick('minconf', [1, 0, 0, 0, 2] if self.focus != 'C07' else [1, 0, 0, 2, 3, 6])
+        acc = self.acct(wi)
         self.quiet = True
         try:
-            us = self.spendable(wi, min_conf)
+            us = self.spendable(wi, min_conf, acc)
         finally:
             self.quiet = False
         total = sum(u['value'] for u in us)
@@ -477,13 +493,16 @@ class WalletWorld:
                 extra['locktime'] = self.chain.tip
             self.request_extra = dict(extra, amt_form=form, addr_form=aform)
         self.w.op('send', wallet=wi.name, outs=[(a[:14], v) for a, v in outs], fee=fee, broadcast=broadcast,
-                  min_confirms=min_conf, rbf=rbf, nco=nco, total=total, extra={k: str(v) for k, v in self.request_extra.items()})
+                  min_confirms=min_conf, rbf=rbf, nco=nco, total=total, extra={k: str(v) for k, v in self.request_extra.items()},
+                  **acc)
+        extra.update(acc)
         seq0 = self.w.log.seq
         n_acc0 = len(self.chain.accepted_broadcasts)
         if n_out == 1 and ch.coin('send_to', 0.5) and 'max_utxos' not in extra:
             fn = lambda: h.send_to(outs_arg[0][0], outs_arg[0][1], fee=fee, min_confirms=min_conf, broadcast=broadcast,
                                    replace_by_fee=rbf, number_of_change_outputs=nco,
-                                   **{k: v for k, v in extra.items() if k in ('input_key_id', 'random_output_order', 'locktime')})
+                                   **{k: v for k, v in extra.items() if k in ('input_key_id', 'random_output_order', 'locktime',
+                                                                                'account_id')})
         else:
             fn = lambda: h.send(outs_arg, fee=fee, min_confirms=min_conf, broadcast=broadcast, replace_by_fee=rbf,
                                 number_of_change_outputs=nco, **extra)
@@ -494,9 +513,10 @@ class WalletWorld:
         ch = self.ch
         h = self.H(wi)
         min_conf = ch.pick('minconf', [1, 0])
+        acc = self.acct(wi)
         self.quiet = True
         try:
-            us = self.spendable(wi, min_conf)
+            us = self.spendable(wi, min_conf, acc)
         finally:
             self.quiet = False
         to = self.recipient(wi)
@@ -510,11 +530,11 @@ class WalletWorld:
         fpk = ch.weighted('fpk', [(None, 4), (3000, 1), (50000, 1)])
         broadcast = ch.coin('broadcast', 0.7)
         self.w.op('sweep', wallet=wi.name, to=str(to_arg)[:60], fee=fee, fee_per_kb=fpk, broadcast=broadcast,
-                  min_confirms=min_conf, total=total)
+                  min_confirms=min_conf, total=total, **acc)
         seq0 = self.w.log.seq
         n_acc0 = len(self.chain.accepted_broadcasts)
         ok, t = self.call(wi, 'sweep', lambda: h.sweep(to_arg, min_confirms=min_conf, fee=fee, fee_per_kb=fpk,
-                                                      broadcast=broadcast))
+                                                      broadcast=broadcast, **acc))
         outs = [(to, None)] if not isinstance(to_arg, list) else [(to, total // 3), (self.ext_keys[0], None)]
         self.after_send(wi, h, ok, t, broadcast, outs, fee, min_conf, seq0, n_acc0, us, request='sweep')
 
